@@ -158,6 +158,7 @@ fn op_done(op: usize, v: usize) { RES[op].store(v, SeqCst); RET[op].store(now(),
                 else: body.append('{ %s let r = try_sync(&q%d, move || { %s %d_usize }); op_done(%d, match r { Ok(v) => v, Err(_) => 9999 }); }' % (pre, q, ' '.join(code), tok, outer))
             elif kind == 'open_gate': body.append('open_gate_wake(%d);' % op[1])
             elif kind == 'rewake': body.append('rewake(%d);' % op[1])
+            elif kind == 'wait_gate': body.append('gate_wait(%d);' % op[1])
             elif kind in ('future_desync', 'future_sync'):
                 q = op[1]; b = op[2] if len(op) > 2 else {}
                 fk = b.get('fut', 'ready'); gate = fk[1] if isinstance(fk, (list, tuple)) else {'panic': 9997, 'wake_panic': 9998, 'yield': 9996}.get(fk, 9999)
